@@ -1144,6 +1144,21 @@ func c20Round4(c *core.Ctx, pkg string) {
 		if !exT || !odC {
 			c.Ok("R20.7", "nack-honours-implicit-digest", p.Pos(on.Pos()), "Express does not file digest Interests separately / onData does not compare digests: nothing for onNack to agree with")
 		} else {
+			// bytes.Equal(nil, []byte{}) is true: "no digest" and "an empty digest component"
+			// are told apart only by a presence test of the entry's digest
+			onP := false
+			core.InstrsDeep(on, func(in ssa.Instruction) {
+				if b, ok := in.(*ssa.BinOp); ok && (b.Op == token.EQL || b.Op == token.NEQ) {
+					for _, pair := range [][2]ssa.Value{{b.X, b.Y}, {b.Y, b.X}} {
+						if core.IsNilConst(pair[1]) {
+							if _, isD := core.FieldOf(pair[0], "impSha256"); isD {
+								onP = true
+							}
+						}
+					}
+				}
+			})
+			c.Decide(onP || !(onT && onC), "R20.7", "nack-digest-presence-compared", p.Pos(on.Pos()), "onNack compares whether the entry has a digest with whether the Nacked name has one", "onNack matches an entry's implicit digest with bytes.Equal alone: a nil digest (the Interest has none) equals an empty one, so a Nack for /N/sha256digest=<empty> resolves the pending Interest /N with a Nack for another name")
 			c.Decide(onT && onC, "R20.7", "nack-honours-implicit-digest", p.Pos(on.Pos()), "onNack strips a trailing implicit digest for the node lookup and compares the entries' digests, like Express and onData", "Express files an Interest that ends in an implicit digest under the name without it and onData compares the entry's digest, but onNack looks up the full Nacked name and resolves every entry of the node: a Nack for /N resolves the pending /N/sha256digest=X Interests (their Data then finds nothing pending) and a Nack for /N/sha256digest=X is dropped as unknown")
 		}
 	}
